@@ -20,6 +20,45 @@ def bound_fn(fn, call):
     return q.completion_targets(fn, call)
 
 
+def accept_outstanding_flag(run):
+    """the bool member raised before every async_accept and lowered, unguarded, in on_accept(): while it is set the
+    connection a completion belonged to has been closed (close_connection() has released every latch itself)"""
+    fx = run.fx
+    stale_flag = None
+    oa = fx.fn1(H + '::on_accept')
+    clr_ = {a.field.split('::')[-1] for a in q.field_accesses(oa) if a.kind == 'assign' and a.field.startswith(H + '::') and is_node(a.site) and a.site['k'] == 'bin' and q.strip_casts(a.site['rhs']).get('v') is False and not q.guards_at(oa, a.site)}
+    for fld in sorted(clr_):
+        sets_ok = True
+        nacc = 0
+        for g_ in fx.repo_functions():
+            if q.top_function(fx, g_).cls != H:
+                continue
+            for c in g_.calls():
+                if (q.callee_name(c) or '').endswith('acceptor::async_accept'):
+                    nacc += 1
+                    st_ = [a.site for a in q.field_accesses(g_, {H + '::' + fld}) if a.kind == 'assign' and q.strip_casts(a.site['rhs']).get('v') is True]
+                    sets_ok = sets_ok and bool(st_) and q.any_precedes(g_, st_, c)
+        if nacc and sets_ok:
+            stale_flag = fld
+    return stale_flag
+
+
+STALE = [None]
+
+
+def _current(fn):
+    """guard evaluation in the state "this completion belongs to the connection that is still current": it was not
+    delivered operation_aborted and no accept is outstanding (in both other states close_connection() has run)"""
+    def leaf(atom):
+        t = q.render(fn, atom)
+        if 'operation_aborted' in t:
+            return False
+        if STALE[0] and q.render(fn, q.strip_casts(atom)).replace('this->', '') == STALE[0]:
+            return False
+        return None
+    return leaf
+
+
 def single_origin_attempt_rule(run, fr):
     """Pipelined requests that arrive before the origin connection exists must not start a second connection attempt:
     each site of forward_request that initiates one (a name lookup, or opening + connecting the socket) is guarded by a
@@ -71,7 +110,7 @@ def single_origin_attempt_rule(run, fr):
         if fld == 'm_writing_to_server':
             continue
         # (a delivery with operation_aborted comes from close_connection(), which has reset the latch itself)
-        not_aborted = lambda atom: False if 'operation_aborted' in q.render(odl, atom) else None
+        not_aborted = _current(odl)
         run.check(bool(clr) and not q.exit_reachable_under(odl, None, clr, not_aborted), 'R4', 'single-origin-attempt', '%s releases %s' % (odl.norm, fld), odl.loc(),
                   '%s is set when the lookup starts but not cleared on every path of on_domain_lookup: after a failed lookup no later request ever connects' % fld, 'cleared on every path of the lookup completion')
 
@@ -165,7 +204,7 @@ def connecting_latch_rule(run, fr):
     for fld in latches:
         held = lambda atom, fld=fld: True if q.render(fr, q.strip_casts(atom)).replace('this->', '') == fld else None
         guarded = bool(writes) and not any(q.reachable_under(fr, None, [w], held) for w in writes)
-        rel1 = fld in bool_assigns(onc, False) and not q.exit_reachable_under(onc, None, [bool_assigns(onc, False)[fld]], lambda atom: False if 'operation_aborted' in q.render(onc, atom) else None)
+        rel1 = fld in bool_assigns(onc, False) and not q.exit_reachable_under(onc, None, [bool_assigns(onc, False)[fld]], _current(onc))
         rel2 = fld in bool_assigns(cc, False) and q.on_all_paths(cc, [bool_assigns(cc, False)[fld]])
         if guarded and rel1 and rel2:
             ok, how = True, 'latch %s' % fld
@@ -277,27 +316,14 @@ def check(run):
         run.check(len(adv) == 1 and q.precedes(fr, c, adv[0].site), 'R9', 'pipeline-append-counted', H + '::forward_request', fr.loc(c), 'the byte count is not advanced by the appended size', 'count advanced by out_request.size()')
     if not mm:
         run.broke('forward_request no longer appends to m_server_out_buffer')
+    STALE[0] = accept_outstanding_flag(run)
     single_origin_attempt_rule(run, fr)
     connecting_latch_rule(run, fr)
     run.clause('each request goes to the host and port it names: one client connection has one origin connection, and a request naming another origin is never appended to its pipeline')
     named_origin_rule(run, fr, list(mm))
     run.clause('a completion aborted by close_connection() does nothing: close_connection() has re-armed the accept and the next client may own the sockets already')
-    stale_flag = None
+    stale_flag = STALE[0]
     oa = f('on_accept')
-    clr_ = {a.field.split('::')[-1] for a in q.field_accesses(oa) if a.kind == 'assign' and a.field.startswith(H + '::') and is_node(a.site) and a.site['k'] == 'bin' and q.strip_casts(a.site['rhs']).get('v') is False and not q.guards_at(oa, a.site)}
-    for fld in sorted(clr_):
-        sets_ok = True
-        nacc = 0
-        for g_ in fx.repo_functions():
-            if q.top_function(fx, g_).cls != H:
-                continue
-            for c in g_.calls():
-                if (q.callee_name(c) or '').endswith('acceptor::async_accept'):
-                    nacc += 1
-                    st_ = [a.site for a in q.field_accesses(g_, {H + '::' + fld}) if a.kind == 'assign' and q.strip_casts(a.site['rhs']).get('v') is True]
-                    sets_ok = sets_ok and bool(st_) and q.any_precedes(g_, st_, c)
-        if nacc and sets_ok:
-            stale_flag = fld
     run.check(stale_flag is not None, 'R5', 'stale-completion-inert', H + ': accept-outstanding flag', oa.loc(),
               'no bool member is raised before every async_accept and lowered first thing in on_accept(): the completions of a closed connection cannot tell that the sockets already belong to the next accept', 'flag %s' % stale_flag)
     nab = aborted_completion_rule(run, H, H + '::close_connection', {H + '::close_connection', H + '::error', H + '::write_server_send_buffer', H + '::open_forward_connection'}, skip=('on_accept',), stale_flag=stale_flag)
@@ -413,7 +439,7 @@ def check(run):
         g_ = gs[0]
         run.touch(g_)
         ccs = [c for c in g_.calls() if c.get('usr') == cc.usr]
-        return bool(ccs) and not q.exit_reachable_under(g_, None, ccs, lambda atom: (False if (_is_aborted_atom(g_, atom) is True and 'operation_aborted' in q.render(g_, atom)) or q.render(g_, q.strip_casts(atom)).replace('this->', '') == 'm_accepting' else None))
+        return bool(ccs) and not q.exit_reachable_under(g_, None, ccs, lambda atom: (False if (_is_aborted_atom(g_, atom) is True and 'operation_aborted' in q.render(g_, atom)) or q.render(g_, q.strip_casts(atom)).replace('this->', '') == STALE[0] else None))
     run.check(len(w) == 1 and any(_closes(u) for u in bound_fn(er, w[0])) and 'm_client_connection' in q.render(er, w[0]), 'R4', 'error-then-close', H + '::error', er.loc(), 'the error response is not written to the client with close_connection as its completion', 'written to the client, then the connection is closed')
 
     run.clause('(5) the host/port separator of the absolute URI is searched from the END of the authority (a forward search for \':\' stops inside a bracketed IPv6 literal)')
